@@ -340,17 +340,15 @@ class Constraint:
     def is_pseudocomplex_constraint(self) -> bool:
         """Return true if the constraint is a pseudo-complex constraint
         (i.e., it can be transformed to a set of simple constraints)."""
-        if not self.is_logical_constraint():
+        if not self.is_complex_constraint():
             return False
         split_ctcs = split_constraint(self)
-        return len(split_ctcs) > 1 and all(
-            ctc.is_simple_constraint() for ctc in split_ctcs
-        )
+        return all(ctc.is_simple_constraint() for ctc in split_ctcs)
 
     def is_strictcomplex_constraint(self) -> bool:
         """Return true if the constraint is a strict-complex constraint
         (i.e., it cannot be transformed to a set of simple constraints)."""
-        if not self.is_logical_constraint():
+        if not self.is_complex_constraint():
             return False
         split_ctcs = split_constraint(self)
         return any(ctc.is_complex_constraint() for ctc in split_ctcs)
